@@ -1,7 +1,7 @@
 (* C19 — the *partial* reading of the tree operations.
    Model.v totalises the three places where the Go code dereferences a child pointer without a
    nil test (rotateRight: n.left / leftNode.right; rotateLeft: n.right / rightNode.left;
-   insertNode's rebalancing tail: root.left.item / root.right.item) by returning the tree
+   insertNode's rebalancing tail: root.left.item / root.right.item; removeMin: root.left) by returning the tree
    unchanged.  Here the same functions return None exactly where the Go code would panic with a
    nil dereference.  Proofs.v shows `run_chk ops = Some (run ops)` for every history: the
    fallback branches of Model.v are dead on reachable states, so no theorem about `run` holds
@@ -16,13 +16,13 @@ Definition bind {A B : Type} (o : option A) (f : A -> option B) : option B :=
 
 Definition rotate_right_chk (t : tree) : option tree :=
   match t with
-  | Node (Node ll llo lhi _ _ lr) lo hi _ _ r => Some (mk ll llo lhi (mk lr lo hi r))
+  | Node (Node ll llo lhi ltg _ _ lr) lo hi tg _ _ r => Some (mk ll llo lhi ltg (mk lr lo hi tg r))
   | _ => None
   end.
 
 Definition rotate_left_chk (t : tree) : option tree :=
   match t with
-  | Node l lo hi _ _ (Node rl rlo rhi _ _ rr) => Some (mk (mk l lo hi rl) rlo rhi rr)
+  | Node l lo hi tg _ _ (Node rl rlo rhi rtg _ _ rr) => Some (mk (mk l lo hi tg rl) rlo rhi rtg rr)
   | _ => None
   end.
 
@@ -30,7 +30,7 @@ Definition rebalance_ins_chk (ilo ihi : Z) (root : tree) : option tree :=
   let b := balance_factor root in
   if b >? 1 then
     match left root with
-    | Node _ llo lhi _ _ _ =>
+    | Node _ llo lhi _ _ _ _ =>
         if negb (less ilo ihi llo lhi)
         then bind (rotate_left_chk (left root)) (fun l' => rotate_right_chk (set_left root l'))
         else rotate_right_chk root
@@ -38,7 +38,7 @@ Definition rebalance_ins_chk (ilo ihi : Z) (root : tree) : option tree :=
     end
   else if b <? -1 then
     match right root with
-    | Node _ rlo rhi _ _ _ =>
+    | Node _ rlo rhi _ _ _ _ =>
         if less ilo ihi rlo rhi
         then bind (rotate_right_chk (right root)) (fun r' => rotate_left_chk (set_right root r'))
         else rotate_left_chk root
@@ -46,13 +46,13 @@ Definition rebalance_ins_chk (ilo ihi : Z) (root : tree) : option tree :=
     end
   else Some root.
 
-Fixpoint ins_chk (ilo ihi : Z) (t : tree) : option tree :=
+Fixpoint ins_chk (ilo ihi itg : Z) (t : tree) : option tree :=
   match t with
-  | Leaf => Some (Node Leaf ilo ihi ihi 1 Leaf)
-  | Node l lo hi _ _ r =>
+  | Leaf => Some (Node Leaf ilo ihi itg ihi 1 Leaf)
+  | Node l lo hi tg _ _ r =>
       if less ilo ihi lo hi
-      then bind (ins_chk ilo ihi l) (fun l' => rebalance_ins_chk ilo ihi (mk l' lo hi r))
-      else bind (ins_chk ilo ihi r) (fun r' => rebalance_ins_chk ilo ihi (mk l lo hi r'))
+      then bind (ins_chk ilo ihi itg l) (fun l' => rebalance_ins_chk ilo ihi (mk l' lo hi tg r))
+      else bind (ins_chk ilo ihi itg r) (fun r' => rebalance_ins_chk ilo ihi (mk l lo hi tg r'))
   end.
 
 Definition rebalance_del_chk (root : tree) : option tree :=
@@ -67,32 +67,44 @@ Definition rebalance_del_chk (root : tree) : option tree :=
     else rotate_left_chk root
   else Some root.
 
+(* removeMin reads root.left of its argument: nil dereference on an empty subtree *)
+Fixpoint remove_min_chk (t : tree) : option (tree * Z) :=
+  match t with
+  | Leaf => None
+  | Node l lo hi tg _ _ r =>
+      match l with
+      | Leaf => Some (r, 1)
+      | _ => bind (remove_min_chk l) (fun '(l', k) =>
+               bind (rebalance_del_chk (mk l' lo hi tg r)) (fun t' => Some (t', k)))
+      end
+  end.
+
 Fixpoint del_chk (t : tree) (dlo dhi : Z) : option (tree * Z) :=
   match t with
   | Leaf => Some (Leaf, 0)
-  | Node l lo hi _ _ r =>
+  | Node l lo hi tg _ _ r =>
       if less dlo dhi lo hi then
         bind (del_chk l dlo dhi) (fun '(l', k) =>
-          bind (rebalance_del_chk (mk l' lo hi r)) (fun t' => Some (t', k)))
+          bind (rebalance_del_chk (mk l' lo hi tg r)) (fun t' => Some (t', k)))
       else if less lo hi dlo dhi then
         bind (del_chk r dlo dhi) (fun '(r', k) =>
-          bind (rebalance_del_chk (mk l lo hi r')) (fun t' => Some (t', k)))
+          bind (rebalance_del_chk (mk l lo hi tg r')) (fun t' => Some (t', k)))
       else
         match l, r with
         | Leaf, _ => Some (r, 1)
         | _, Leaf => Some (l, 1)
-        | _, Node rl rlo rhi _ _ _ =>
-            let '(slo, shi) := find_min rlo rhi rl in
-            bind (del_chk r slo shi) (fun '(r', k) =>
-              bind (rebalance_del_chk (mk l slo shi r')) (fun t' => Some (t', k)))
+        | _, Node rl rlo rhi rtg _ _ _ =>
+            let '(slo, shi, stg) := find_min rlo rhi rtg rl in
+            bind (remove_min_chk r) (fun '(r', k) =>
+              bind (rebalance_del_chk (mk l slo shi stg r')) (fun t' => Some (t', k)))
         end
   end.
 
 Definition step_chk (s : t) (o : op) : option t :=
   match o with
-  | Insert lo hi =>
+  | Insert lo hi tg =>
       if lo >? hi then Some s
-      else bind (ins_chk lo hi (root s)) (fun r => Some {| root := r; size := size s + 1 |})
+      else bind (ins_chk lo hi tg (root s)) (fun r => Some {| root := r; size := size s + 1 |})
   | Delete lo hi =>
       bind (del_chk (root s) lo hi) (fun '(r, k) => Some {| root := r; size := size s - k |})
   | Clear => Some empty
